@@ -31,6 +31,9 @@ package watgen
 //         "hexadecimal integer literal with the sign bit set"   i32.const 0xffffffff, i64.const 0x8000000000000000
 //         "negative hexadecimal integer literal"          i32.const -0x1
 //         "unsigned decimal i64 literal above MaxInt64"   i64.const 18446744073709551615
+//         "identifier consisting of digits only"          $0, $1: accepted at freeze time but resolved as
+//                                                         indices (the scanner drops the `$`) - wrong code,
+//                                                         reported by C04; refusing them is an acceptable repair
 //     (decimal i32 literals up to 4294967295 ARE accepted and are in the dialect.)
 //
 //   - Constructs rejected at freeze time that the parser/assembler has explicit code for are
